@@ -11,7 +11,8 @@
   gen_get_errors_shape    Project._get_errors extends collection.parse_errors (every collection), openapi.errors, self.errors;
                           GeneratorData.from_dict passes errors=schemas.errors + parameters.errors
   gen_loader_catches      _load_yaml_or_json catches ValueError (JSON) / YAMLError (YAML) and _get_document catches
-                          httpx.HTTPError + httpcore.NetworkError, each handler returning a GeneratorError
+                          httpx.HTTPError + httpcore.NetworkError and wraps source.read_bytes() in try/except OSError, each handler
+                          returning a GeneratorError
   gen_validation_caught   from_dict wraps OpenAPI.model_validate in try/except ValidationError returning a GeneratorError
   gen_scalar_guard        the `"swagger" in data` test of that handler is guarded by isinstance(data, dict)   (scalar_document_crash)
   gen_mkdir_parents       Project.build creates the project dir with mkdir(parents=True)                        (missing_parent_dir)
@@ -244,7 +245,19 @@ def fact_loader_catches():
             for h in tr.handlers:
                 if returns_generator_error(h.body) and isinstance(h.type, ast.Tuple) and {u(e) for e in h.type.elts} >= {"httpx.HTTPError", "httpcore.NetworkError"}:
                     okg = True
-    return bool(ok and okg)
+    # the file branch: every source.read_bytes() sits in a try whose OSError (or broader) handler returns a GeneratorError
+    reads = [x for x in ast.walk(gd) if isinstance(x, ast.Call) and u(x.func) == "source.read_bytes"]
+    okr = bool(reads)
+    for rd in reads:
+        covered = False
+        for tr in gtries:
+            if any(rd is x for s_ in tr.body for x in ast.walk(s_)):
+                for h in tr.handlers:
+                    names = {u(e) for e in h.type.elts} if isinstance(h.type, ast.Tuple) else ({u(h.type)} if h.type is not None else {"BaseException"})
+                    if names & {"OSError", "IOError", "EnvironmentError", "Exception"} and returns_generator_error(h.body):
+                        covered = True
+        okr = okr and covered
+    return bool(ok and okg and okr)
 
 
 def fact_validation():
